@@ -45,11 +45,11 @@ def _filter_known(prop, lines):
 
 
 def product_stage(prop, name, module, base_cfg, overrides, replayer="replay_parser", timeout=7200,
-                  heap="8g", workers=None, extra_replayer_args="", memprop=None):
+                  heap="8g", workers=None, extra_replayer_args="", memprop=None, build_cfg="asan"):
     """TLC explores `module` under base_cfg+overrides with EmitOn=TRUE; every behaviour it prints is
     executed by `replayer` (ASan+UBSan build of the current tree)."""
     t0 = time.time()
-    bdir = vlib.build("asan", [replayer])
+    bdir = vlib.build(build_cfg, [replayer])
     odir = os.path.join(OUT, prop, name)
     shutil.rmtree(odir, ignore_errors=True)
     os.makedirs(odir)
@@ -261,11 +261,13 @@ NAV_STAGES = {
     "C06": {"quick":    [("nav", _nav(4, 3, "ValsInt1", "NamesAB", "LookAB", "OpsNavE", "RootsOA")),
                          ("nav-history-2", _nav(3, 3, "ValsInt1", "NamesAB", "LookAB", "OpsNav", "RootsOA", HistK=2)),
                          ("nav-deep-nesting", _nav(6, 5, "ValsInt1", "NamesA", "LookAB", "OpsNav", "RootsO", 5)),
-                         ("nav-tight-depth", _nav(4, 3, "ValsInt1", "NamesAB", "LookAB", "OpsNavE", "RootsOA", 2))],
+                         ("nav-tight-depth", _nav(4, 3, "ValsInt1", "NamesAB", "LookAB", "OpsNavE", "RootsOA", 2)),
+                         ("nav-names", _nav(3, 3, "ValsInt1", "NamesRich", "LookAB", "OpsNav", "RootsOA"))],
             "thorough": [("nav", _nav(5, 4, "ValsInt1", "NamesAB", "LookAB", "OpsNavE", "RootsOA")),
                          ("nav-deep-nesting", _nav(7, 6, "ValsInt1", "NamesA", "LookAB", "OpsNav", "RootsOA", 6)),
                          ("nav-tight-depth-1", _nav(5, 4, "ValsInt1", "NamesAB", "LookAB", "OpsNavE", "RootsOA", 1)),
                          ("nav-tight-depth-2", _nav(5, 4, "ValsInt1", "NamesAB", "LookAB", "OpsNavE", "RootsOA", 2)),
+                         ("nav-names", _nav(4, 3, "ValsInt1", "NamesRich", "LookAB", "OpsNav", "RootsOA")),
                          ("nav-history-2", _nav(4, 3, "ValsInt1", "NamesAB", "LookAB", "OpsNav", "RootsOA", HistK=2)),
                          ("nav-mixed-values", _nav(4, 3, "ValsMix", "NamesAB", "LookAB", "OpsNavE", "RootsOA"))]},
     "C03": {"quick":    [("values-names", _nav(2, 2, "ValsAll", "NamesRich", "LookAB", "OpsNav", "RootsOA")),
@@ -335,6 +337,9 @@ def check_nav(prop, tier, replay):
     stages.append(parser_trace_stage(prop, tier))
     if prop in ("C03", "C10"):
         stages.append(corpus_stage(prop, tier, "valid_objects"))      # the 220 valid documents shipped with the repository
+    if prop == "C10":
+        # decode-then-encode through the C++ class (deserialize overloads on a used object, then serialize)
+        stages.append(product_stage(prop, "class-decode-encode", "MC_Class.tla", "MC_Class.cfg", dict(K=2 if tier == "quick" else 3, Sigma="SigmaC", Families="TRUE"), replayer="replay_class"))
     return finish(prop, tier, stages, t0, ASSUME_COMMON)
 
 
@@ -370,8 +375,8 @@ REGISTRY["C08"] = check_stream
 
 
 # ------------------------------------------------ MC_Safety based checks -------
-def _saf(K, MaxCalls, MaxDs, Sigma, Fills, Names="NamesH"):
-    return dict(K=K, MaxCalls=MaxCalls, MaxDs=MaxDs, Sigma=Sigma, Names=Names, Fills=Fills)
+def _saf(K, MaxCalls, MaxDs, Sigma, Fills, Names="NamesH", LookupsAnywhere="FALSE"):
+    return dict(K=K, MaxCalls=MaxCalls, MaxDs=MaxDs, Sigma=Sigma, Names=Names, Fills=Fills, LookupsAnywhere=LookupsAnywhere)
 
 SAFETY_STAGES = {
     "quick":    [("hostile-tokens", _saf(2, 3, "MaxDs12", "SigmaTok", "FillsQ")),
@@ -392,14 +397,20 @@ EXTRA_STAGES = {
                          ("writer-reset", "MC_Writer.tla", "MC_Writer.cfg", WRITER_T),
                          ("to_string-then-reuse", "MC_ToString.tla", "MC_ToString.cfg", _ts(3, 3, "ValsText", "NamesAB", "FALSE", "TRUE", "RootsOA", "Pres012"))]},
     "C09": {"quick": [("writer-latch", "MC_Writer.tla", "MC_Writer.cfg", WRITER_Q),
+                      ("to_string-invalid-documents", "MC_ToString.tla", "MC_ToString.cfg", _ts(2, 3, "ValsText", "NamesAB", "FALSE", "TRUE", "RootsOA", "Pres0")),
                       ("to-writer-latched", "MC_Nav.tla", "MC_Nav.cfg", _nav(3, 3, "ValsInt1", "NamesAB", "LookAB", "OpsNav", "RootsOA"))],
             "thorough": [("writer-latch", "MC_Writer.tla", "MC_Writer.cfg", WRITER_T),
+                         ("to_string-invalid-documents", "MC_ToString.tla", "MC_ToString.cfg", _ts(3, 3, "ValsText", "NamesAB", "TRUE", "TRUE", "RootsOA", "Pres0")),
                          ("to-writer-latched", "MC_Nav.tla", "MC_Nav.cfg", _nav(5, 3, "ValsInt1", "NamesAB", "LookAB", "OpsNav", "RootsOA"))]},
-    "C16": {"quick": [("class-wrapper-family-documents", "MC_Class.tla", "MC_Class.cfg", dict(K=1, Sigma="SigmaC", Families="TRUE"))],
-            "thorough": [("class-wrapper-k3", "MC_Class.tla", "MC_Class.cfg", dict(K=3, Sigma="SigmaC", Families="TRUE"))]},
+    "C16": {"quick": [("class-wrapper-family-documents", "MC_Class.tla", "MC_Class.cfg", dict(K=1, Sigma="SigmaC", Families="TRUE")),
+                      ("hostile-lookups-anywhere", "MC_Safety.tla", "MC_Safety.cfg", _saf(2, 3, "MaxDs12", "SigmaTok", "FillsTwo", LookupsAnywhere="TRUE"))],
+            "thorough": [("class-wrapper-k3", "MC_Class.tla", "MC_Class.cfg", dict(K=3, Sigma="SigmaC", Families="TRUE")),
+                         ("hostile-lookups-anywhere", "MC_Safety.tla", "MC_Safety.cfg", _saf(3, 3, "MaxDs12", "SigmaTok", "FillsTwo", LookupsAnywhere="TRUE"))]},
     "C01": {"quick": [("nesting-limits", "MC_Verify.tla", "MC_Verify.cfg", dict(K=0, MaxDs="MaxDsDeep", Sigma="SigmaMid", Deep="TRUE")),
+                      ("reuse-nav-values", "MC_Nav.tla", "MC_Nav.cfg", _nav(3, 3, "ValsMix", "NamesAB", "LookAB", "OpsReuse", "RootsOA")),
                       ("to_string-then-reuse", "MC_ToString.tla", "MC_ToString.cfg", _ts(2, 3, "ValsText", "NamesAB", "FALSE", "TRUE", "RootsOA", "Pres012"))],
             "thorough": [("nesting-limits", "MC_Verify.tla", "MC_Verify.cfg", dict(K=0, MaxDs="MaxDsDeep", Sigma="SigmaMid", Deep="TRUE")),
+                         ("reuse-nav-values", "MC_Nav.tla", "MC_Nav.cfg", _nav(4, 3, "ValsMix", "NamesAB", "LookAB", "OpsReuse", "RootsOA")),
                          ("to_string-then-reuse", "MC_ToString.tla", "MC_ToString.cfg", _ts(3, 3, "ValsText", "NamesAB", "FALSE", "TRUE", "RootsOA", "Pres012"))]},
 }
 
@@ -411,8 +422,11 @@ def check_safety(prop, tier, replay):
     stages = [product_stage(prop, name, "MC_Safety.tla", "MC_Safety.cfg", c) for name, c in SAFETY_STAGES[tier]]
     for name, mod, cfg, c in EXTRA_STAGES.get(prop, {}).get(tier, []):
         stages.append(product_stage(prop, name, mod, cfg, c, replayer={"MC_Writer.tla": "replay_writer", "MC_ToString.tla": "replay_tostring", "MC_Class.tla": "replay_class"}.get(mod, "replay_parser"),
-                                    memprop=prop if mod == "MC_ToString.tla" else None))
+                                    memprop=prop if mod == "MC_ToString.tla" else None,
+                                    build_cfg="asan-noub" if name == "hostile-lookups-anywhere" else "asan"))
     stages.append(parser_trace_stage(prop, tier))
+    if prop == "C01":
+        stages.append(apalache_stage(prop, "unbounded-bounds-arithmetic", "ApParserCore"))
     if prop == "C16":
         stages.append(trace_stage(prop, "recorded-large-documents", "record_tostring", "--big --docs %d" % (150 if tier == "quick" else 3000),
                                   "TraceToString.tla", "TraceToString.cfg", memprop="C13"))
@@ -467,9 +481,11 @@ WRITER_STAGES = {
                          ("calls-k4-ints", dict(K=4, Alpha="AlphaInts", WithReset="FALSE", AllCaps="FALSE"))]},
 }
 WRITERDOC_STAGES = {
-    "quick":    [("documents", dict(MaxNodes=5, MaxNest=3, ValCalls="ValsDoc1", DocNames="NamesEAB", AllCaps="FALSE"))],
+    "quick":    [("documents", dict(MaxNodes=5, MaxNest=3, ValCalls="ValsDoc1", DocNames="NamesEAB", AllCaps="FALSE")),
+                 ("documents-long-names", dict(MaxNodes=3, MaxNest=2, ValCalls="ValsDoc1", DocNames="NamesLongW", AllCaps="FALSE"))],
     "thorough": [("documents", dict(MaxNodes=5, MaxNest=3, ValCalls="ValsDoc", DocNames="NamesEAB", AllCaps="FALSE")),
-                 ("documents-nul-names", dict(MaxNodes=4, MaxNest=3, ValCalls="ValsDoc1", DocNames="NamesNul", AllCaps="FALSE"))],
+                 ("documents-nul-names", dict(MaxNodes=4, MaxNest=3, ValCalls="ValsDoc1", DocNames="NamesNul", AllCaps="FALSE")),
+                 ("documents-long-names", dict(MaxNodes=4, MaxNest=3, ValCalls="ValsDoc", DocNames="NamesLongW", AllCaps="FALSE"))],
 }
 ASSUME_WRITER = [
     "Layer I (spec/WriterImpl.tla) transcribes binson_writer.c; bound to the code by comparing the exact number of bytes stored (drift reported)",
